@@ -36,7 +36,7 @@ def grid(tier, h):
     bs = hashlib.new(h).block_size
     if tier == 'quick':
         keys = sorted({0, 1, 8, 16, 32, bs - 1, bs, bs + 1, 80})
-        msgs = sorted({0, 1, 2, ds - 1, ds, ds + 1, 55, 56, bs - 1, bs, bs + 1, 119, 200})
+        msgs = list(range(0, 201))
         outs = sorted({1, 2, ds - 1, ds, ds + 1, 2 * ds - 1, 2 * ds, 2 * ds + 1, 3 * ds, 100, 199, 200})
     else:
         keys = list(range(0, 81))
@@ -54,7 +54,7 @@ def describe(tier):
                 'H(m || minimal-big-endian(c)), c = 1,2,... truncated, or shake.digest(n). Distinctness: 2000 distinct (k, m) pairs with one '
                 'fixed key length, n in {16, 20, 32}: pairwise distinct outputs. Contracts: declared key/message length violated -> ValueError; '
                 'unknown digest names -> ValueError; default output length == digest size. non-trivial = output length > digest size or message non-empty.'
-                % ('boundary grid (0, 1, block-1, block, block+1, digest+-1, multiples of the digest, 200)' if tier == 'quick'
+                % ('boundary grid for key and output lengths (0, 1, block-1, block, block+1, digest+-1, multiples of the digest, 200) x ALL message lengths 0..200' if tier == 'quick'
                    else 'the FULL box keys 0..80 x messages 0..200 x outputs 1..200'),
         'bounds': 'quick: boundary grid; thorough: full box 81 x 201 x 200 per digest',
         'assumptions': ['key and message bytes are DRBG values (one per length); distinctness is decided on a 2000-element DRBG set'],
